@@ -31,6 +31,15 @@ def time_grid(kind: str, n: int, T: float, seed: int = 0) -> np.ndarray:
         return np.concatenate([base, 1e6 + 1e5 * np.arange(1, n - 3)])
     if kind == "integer":  # integer dtype, e.g. days on production
         return np.arange(n, dtype=np.int64)
+    if kind == "float32":  # single-precision time stamps
+        return np.linspace(0.0, T, n).astype(np.float32)
+    if kind == "jitter":  # 'evenly spaced' up to parts-per-million jitter and a slow stretch
+        g = LCG(seed + 3)
+        dt = (T / (n - 1)) * (1 + 4e-6 * (np.array([g.next() for _ in range(n - 1)]) - 0.5) + 2e-6 * np.arange(n - 1))
+        return np.concatenate([[0.0], np.cumsum(dt)])
+    if kind == "tiny":  # increments of 1e-9 .. 8e-9
+        dt = 1e-9 * (1 + (np.arange(n - 1) % 8))
+        return np.concatenate([[0.0], np.cumsum(dt)])
     if kind == "onestep":
         return np.array([0.0, 1e7])
     raise KeyError(kind)
